@@ -22,7 +22,22 @@ pub enum ChildOut {
     Timeout,
 }
 
+/// fork() in a process that has other threads can leave a lock (allocator arena, thread stack
+/// cache, loader) held for ever in the child. The only other threads a worker ever has are the
+/// background threads of stores it has just dropped, which exit by themselves: wait for them.
+fn wait_single_threaded() {
+    let t0 = Instant::now();
+    loop {
+        let n = std::fs::read_dir("/proc/self/task").map(|r| r.count()).unwrap_or(1);
+        if n <= 1 || t0.elapsed().as_millis() > 200 {
+            return;
+        }
+        std::thread::sleep(std::time::Duration::from_micros(100));
+    }
+}
+
 pub fn in_child(f: impl FnOnce() -> Vec<u8>, timeout_ms: i32) -> ChildOut {
+    wait_single_threaded();
     unsafe {
         let mut fds = [0i32; 2];
         if libc::pipe(fds.as_mut_ptr()) != 0 {
@@ -173,6 +188,13 @@ pub fn record(cfg: Cfg, word: &[Op], dir: &Path, fault: Option<(usize, FaultKind
 /// an in-process reopen aborts the process. The child leaves the directory behind on tmpfs; only
 /// results and reads travel through the pipe.
 pub fn record_in_child(cfg: Cfg, word: &[Op], dir: &Path, fault: Option<(usize, FaultKind)>) -> Result<Recorded, String> {
+    match record_in_child_once(cfg, word, dir, fault) {
+        Err(e) if e.contains("hang") => record_in_child_once(cfg, word, dir, fault),
+        r => r,
+    }
+}
+
+fn record_in_child_once(cfg: Cfg, word: &[Op], dir: &Path, fault: Option<(usize, FaultKind)>) -> Result<Recorded, String> {
     let w2 = word.to_vec();
     let d2 = dir.to_path_buf();
     let out = in_child(
@@ -270,6 +292,18 @@ pub struct Recovery {
 }
 
 fn recover_in_child(dir: &Path, cfg: Cfg, max_id_ever: Option<u64>, rounds: usize) -> Result<Recovery, String> {
+    // a silent child is re-tried once from a pristine copy of the directory before it is believed
+    let snapshot = list_dir(dir);
+    match recover_in_child_once(dir, cfg, max_id_ever, rounds) {
+        Err(e) if e.contains("hang") => {
+            write_dir(dir, &snapshot);
+            recover_in_child_once(dir, cfg, max_id_ever, rounds)
+        }
+        r => r,
+    }
+}
+
+fn recover_in_child_once(dir: &Path, cfg: Cfg, max_id_ever: Option<u64>, rounds: usize) -> Result<Recovery, String> {
     let dir2 = dir.to_path_buf();
     let out = in_child(
         move || {
@@ -456,6 +490,12 @@ pub fn plan(mode: &str, tier: Tier) -> Plan {
             cfgs.push(c);
         }
     }
+    if mode == "fault" {
+        // the fsync of every append is a fallible call, too
+        let mut c = Cfg::new(60, Thr::All, 1);
+        c.sync_always = true;
+        cfgs.push(c);
+    }
     if tier == Tier::Thorough {
         for thr in [Thr::Dead, Thr::All] {
             let mut c = Cfg::new(if thr == Thr::All { e1::MFS_BIG } else { 60 }, thr, 2);
@@ -622,6 +662,47 @@ fn run_crash(cx: &mut Ctx, cfg: Cfg, word: &[Op], power: bool, byte_granular: bo
             }
         }
         let max_id = max_id_in(pre);
+        if power && !byte_granular {
+            // quick tier: in addition to the full product at write boundaries, every BYTE of every
+            // unsynced tail of up to 80 bytes, one file at a time (the others keep everything)
+            let mut len: BTreeMap<String, usize> = BTreeMap::new();
+            let mut synced: BTreeMap<String, usize> = BTreeMap::new();
+            for c in pre {
+                match c {
+                    Call::Create { path, .. } => {
+                        len.insert(path.clone(), 0);
+                        synced.insert(path.clone(), 0);
+                    }
+                    Call::Write { path, data } => {
+                        if let Some(l) = len.get_mut(path) {
+                            *l += data.len();
+                        }
+                    }
+                    Call::Fsync { path } => {
+                        if let Some(l) = len.get(path) {
+                            synced.insert(path.clone(), *l);
+                        }
+                    }
+                    Call::Unlink { path } => {
+                        len.remove(path);
+                        synced.remove(path);
+                    }
+                    _ => {}
+                }
+            }
+            for (p, l) in &len {
+                let s0 = synced[p];
+                if *l > s0 && *l - s0 <= 80 {
+                    for x in (s0 + 1)..*l {
+                        let mut c = BTreeMap::new();
+                        c.insert(p.clone(), x);
+                        if !cuts.contains(&c) {
+                            cuts.push(c);
+                        }
+                    }
+                }
+            }
+        }
         for cut in &cuts {
             let files = materialize(pre, cut);
             write_dir(&cx.rdir, &files);
@@ -987,7 +1068,7 @@ pub fn report_meta(prop: &str, tier: Tier) -> (String, Value, Vec<String>) {
     let nwords = words_upto(&p.alphabet, p.depth).len();
     let rule = match mode {
         "crash" | "c14" => format!("every workload word of length 0..={} over {:?} x {} configurations is executed on the real store with every mutating system call recorded; for every crash point inside the last operation of every word (so every prefix of every history is a crash point exactly once) the directory produced by exactly that prefix of calls is rebuilt, opened by the real recovery code in a forked child (twice: a crash right after recovery's own file creation), and every key is read; a case is distinct+non-trivial when an operation is in flight at the crash point (distinct by directory fingerprint). workloads={}", p.depth, p.alphabet.iter().map(|o| o.show()).collect::<Vec<_>>(), p.cfgs.len(), nwords * p.cfgs.len()),
-        "power" => format!("as the crash enumeration, under sync=always, and for every crash point every per-file loss vector: each file independently keeps any length between its last fsync and its current length ({}); creations and removals are durable. workloads={}", if tier == Tier::Thorough { "every byte for tails up to 64 bytes, else every write boundary plus every byte of the first and last 40" } else { "every write boundary" }, nwords * p.cfgs.len()),
+        "power" => format!("as the crash enumeration, under sync=always, and for every crash point every per-file loss vector: each file independently keeps any length between its last fsync and its current length ({}); creations and removals are durable. workloads={}", if tier == Tier::Thorough { "every byte for tails up to 64 bytes, else every write boundary plus every byte of the first and last 40" } else { "the full product over files at write boundaries, plus every byte of every unsynced tail of up to 80 bytes one file at a time" }, nwords * p.cfgs.len()),
         _ => format!("every workload word of length {} (every fault position) and every shorter word (fault in its last operation) over {:?} x {} configurations; one fault per run at every individual create / write / fsync / unlink call with EIO, ENOSPC (writes, creates) and short writes; the rest of the workload runs after the fault, then the store is restarted. workloads={}", p.depth, p.alphabet.iter().map(|o| o.show()).collect::<Vec<_>>(), p.cfgs.len(), nwords * p.cfgs.len()),
     };
     let bounds = json!({"mode": mode, "depth": p.depth, "alphabet": p.alphabet.iter().map(|o| o.show()).collect::<Vec<_>>(), "configs": p.cfgs.iter().map(|c| c.to_json()).collect::<Vec<_>>(), "workloads": nwords * p.cfgs.len()});
